@@ -181,7 +181,7 @@ def main():
         for mm in res['mismatches']:
             ck.violation('%s %s %s sizes=%s cursor held across sweeps: %s after %s' % (
                 mm['fam'], mm['impl'], 'set' if mm['is_set'] else 'map', mm['sizes'], mm['kind'], mm['history'][-4:]), dict(mm, kind='cursor-' + mm['kind']))
-    if plan and not ck.notes.get('cursor_ghosts_made'):
+    if plan and not ck.notes.get('cursor_ghosts_made') and not ck.violations:
         common.machinery_failure('the sweeps before cursor steps evicted nothing')
     # 5. set algebra on evicted operands: the operands (Set, TreeSet, Bucket, BTree of every kind combination) are stored
     #    in the data manager and the cache is swept, so every call of union / intersection / difference / the operators /
@@ -190,7 +190,7 @@ def main():
     splan = []
     for fam in (['OO', 'II', 'LF'] if quick else ['OO', 'II', 'LF', 'fs', 'QQ', 'IO', 'UU', 'OI']):
         for impl in ('c', 'py'):
-            splan.append(dict(fam=fam, impl=impl, emb='mid', nkeys=3, ghost=True, pure=(impl == 'py'),
+            splan.append(dict(fam=fam, impl=impl, emb='mid', nkeys=5, ghost=True, pure=(impl == 'py'),
                               seed=ck.seed * 100 + 300 + len(splan), maxpairs=(500 if impl == 'c' else 200) if quick else 8000))
             if fam in ('II', 'LF'):
                 splan.append(dict(fam=fam, impl=impl, emb='mid', nkeys=3, ghost=True, weighted=True, pure=(impl == 'py'),
